@@ -12,3 +12,6 @@ func verifGate(point string) {
 		VerifGate(point)
 	}
 }
+
+// VerifGatePoint lets other packages of the daemon (the API handlers) name a gate point.
+func (d *Pegnetd) VerifGatePoint(point string) { verifGate(point) }
